@@ -115,6 +115,16 @@ CHECKS = {
 }
 
 CHECKS.update({
+    "C28": (
+        "generated histories of hy.repr calls (JSON operation lists: repr / arm crash point / re-register / repr under a lowered recursion limit) over models, containers, cycles and fresh test classes whose printers re-enter hy.repr, raise (Exception, BaseException) at chosen steps or swallow nested failures; per-history epilogue and crash-point sweep; stateless reference printer in lock-step + canary invariants after every step + confirmation of every disagreement against a new interpreter process",
+        "Each top-level call's text/exception must equal the reference printer's (state scoped to the call); every discrepancy is re-judged against the same single call in a fresh interpreter before it is reported. Crash points are enumerated per object and printer step for up to 8 pairs per history; histories are sampled.",
+        "Trusts the reference printer for the restricted value universe (validated against fresh interpreters on sampled calls and on every disagreement).",
+        "values", "2/C28"),
+    "C31": (
+        "reference quasiquote expander over JSON templates (constructor-built models, one grammar for templates and for code inside live unquotes), compared type- and attribute-exactly with hy.eval of (quasiquote T); enumerated splice grid (7 sequence kinds x 31 splice values x 5 positions) and nesting grid (all interleavings of <= 2 quasiquotes and <= 3 unquotes) plus Hypothesis templates to nesting level 2",
+        "Level-0 unquote -> value, level-0 splice -> elements of (or value []), quasiquote +1, unquote/splice at level > 0 stay literal and lower the level. A result must equal the reference with every substituted value promoted, or with every one inserted as it is (what Hy does; docs/syntax.rst places promotion at compile time and upstream's tests promote before comparing).",
+        "hy.as-model defines 'promoted'; raw insertion of substituted values is accepted and counted (class flavour:raw).",
+        "quasi", "2/C31"),
     "C25": (
         "round trip on models read from Engine-B texts (every syntax form incl. bracket strings, f-/t-strings with conversions, =, nested multi-part format specs): hy.eval(hy.read(hy.repr(m))) compared node by node (type, value, brackets, conversion, is_tstring) and hy.repr of the result compared with the first text",
         "Thousands of models per run, each top-level model separately; one recorded finding (a format-spec literal containing '}') is identified by a root-cause predicate on the model, counted as excluded_known.",
@@ -235,7 +245,7 @@ def main():
              "kind_free_text": "pattern/subject generator with Hy and Python renderers, CPython's match as reference"},
             {"name": "scopes", "path": "vf/scopes.py", "serves_properties": ["C06", "C07"],
              "kind_free_text": "Engine C: scoping-program IR, Hypothesis generator, renderer, binder-resolving reference interpreter"},
-            {"name": "values", "path": "vf/props/c27.py", "serves_properties": ["C27", "C29"],
+            {"name": "values", "path": "vf/props/c27.py", "serves_properties": ["C27", "C28", "C29"],
              "kind_free_text": "tagged JSON value trees incl. sharing and cycles"},
             {"name": "schedules", "path": "vf/c38_sched.py", "serves_properties": ["C38"],
              "kind_free_text": "owned thread scheduler on sys.monitoring INSTRUCTION events with a cooperative lock"},
@@ -243,6 +253,8 @@ def main():
              "kind_free_text": "REPL session driver and history model"},
             {"name": "macroenv", "path": "vf/c36_ref.py", "serves_properties": ["C36"],
              "kind_free_text": "macro-environment cases and a hy-free reference expansion stepper"},
+            {"name": "quasi", "path": "vf/c31_ref.py", "serves_properties": ["C31"],
+             "kind_free_text": "JSON quasiquote templates and a reference expander"},
             {"name": "literals", "path": "vf/props/c22.py", "serves_properties": ["C22", "C23", "C24"],
              "kind_free_text": "per-module structural generators of literal texts (vf/props/c22.py, c23.py, c24.py) with CPython as the reference evaluator"},
         ],
